@@ -65,6 +65,8 @@ pub fn classify(msg: &str) -> String {
         "I"
     } else if msg.contains("Bad offset") || msg.contains("Bad range") {
         "o"
+    } else if msg.contains("assertion `left == right` failed") && msg.contains("RawSyntaxKind(") {
+        "k"
     } else if msg.contains("assertion `left == right` failed") {
         "N"
     } else {
